@@ -7,6 +7,8 @@ def run(ctx: Ctx) -> list[Ob]:
     obs: list[Ob] = []
     obs += r7d.r7d(ctx)
     obs += r7d.r7s(ctx)
+    obs += r7d.r7t(ctx)
+    obs += r7d.r7u(ctx)
     obs += r7n.structured(ctx) + r7n.canonical(ctx)
     obs += r14.groupby_sorted(ctx, ('cirkit.symbolic', 'cirkit.templates.region_graph'))
     obs += r7.r7a(ctx, ["cirkit.symbolic.circuit._scope_factorizations"], require=1)
@@ -27,7 +29,7 @@ SPEC = PropSpec(
         "circuit._are_compatible must not reject keys missing on one side while never examining the converse (one-sided comparison "
         "= asymmetric answer); R7o: RegionGraph.is_compatible may query node_inputs/node_outputs of a node only on the graph the "
         "node was drawn from."
-        " R7s: the scope table the predicates read (Circuit.layer_scope) is filled, in the constructor's validation loop, with an input layer's own scope or with the union over an unfiltered iteration of *all* inputs of the layer -- a scope copied from one input hides the variables a non-smooth sum receives through the others and makes the flags depend on the order of the inputs."
+        " R7u: no predicate of circuit.py builds 'the variables' from range(num_variables) ('not on how variables are numbered'). R7t: _scope_factorizations records for a product the scopes of its *direct* inputs (layer_inputs), not a recursive expansion through nested products. R7d also reports a filter on the inputs of a sum in is_smooth (every input of every sum is compared). R7s: the scope table the predicates read (Circuit.layer_scope) is filled, in the constructor's validation loop, with an input layer's own scope or with the union over an unfiltered iteration of *all* inputs of the layer -- a scope copied from one input hides the variables a non-smooth sum receives through the others and makes the flags depend on the order of the inputs."
         " R7n (the region-graph twin of the predicate): RegionGraph.is_structured_decomposable compares the decompositions of all partitions over the same *scope* (not per region node) and in an order-free canonical form; R14a: any itertools.groupby used by the predicates runs over a sequence sorted by the grouping key."
     ),
     not_decided="completeness of the predicates (they may under-report compatibility); that stronger predicates answer False for non-smooth operands (not required by the statement, deliberately not armed).",
